@@ -93,7 +93,12 @@ from .client_callbacks import (
     on_state_msg,
     on_subscribe_home_assistant_state_response,
 )
-from .connection import APIConnection, ConnectionParams, handle_timeout
+from .connection import (
+    APIConnection,
+    ConnectionParams,
+    ConnectionState,
+    handle_timeout,
+)
 from .core import (
     APIConnectionError,
     BluetoothConnectionDroppedError,
@@ -370,7 +375,13 @@ class APIClient:
         try:
             await coro
         except (Exception, asyncio.CancelledError):  # pylint: disable=broad-except
-            if self._connection is connection:
+            # A failed connect phase closes the connection. A call that the
+            # connection refused because it was made twice or out of order
+            # leaves it, and a session or attempt it carries, as it was.
+            if self._connection is connection and (
+                connection is None
+                or connection.connection_state is ConnectionState.CLOSED
+            ):
                 self._connection = None
             raise
 
